@@ -1,5 +1,5 @@
 SPECIFICATION GenSpecC
-CONSTANTS Names <- NamesQ Depth = 2 Vals <- ValsQ Sep = 46 Design = "items" Base <- NoBase MaxSlots = 3
+CONSTANTS Names <- NamesAE Depth = 2 Vals <- ValsQ Sep = 46 Design = "items" Base <- NoBase MaxSlots = 3
   Ends <- Ends0 Strs <- NoStrs Seps <- NoStrs Asgs <- NoStrs Elems <- NoStrs
 CONSTRAINT Bound
 VIEW ViewC
